@@ -160,7 +160,7 @@ func (g *progen) literal() pexpr {
 		return pexpr{s: "void 0", prec: pPrefix, kind: 4}
 	case 10:
 		if g.rng.Intn(4) != 0 {
-			return pexpr{s: pgNumbers[g.rng.Intn(6)], prec: pMember}
+			return pexpr{s: pgNumbers[g.rng.Intn(4)], prec: pMember}
 		}
 		return pexpr{s: []string{"1n", "0n", "255n", "-3n"}[g.rng.Intn(4)], prec: pPrefix, kind: 4}
 	default:
